@@ -84,11 +84,13 @@ def run(ck, P):
     ck.need(news, "ctx_new is never called")
     for ev in news:
         ck.call_sites += 1
-        facts = X.facts(ev.fn, ev)
+        facts = rules.resolve_atoms(ev.fn, X.facts(ev.fn, ev) or ())      # (the slot may be read in a helper / into a local first)
         ok = ev.fn is reg and has(facts, "pthread_getspecific(key)", False)
         ck.ob("C07.1-ONE-PER-THREAD", ev.fn.site("ctx_new"), ok,
               "ctx_new at line %d in %s under %s" % (ev.line, ev.fn.name, fmt_facts(facts)))
     gs = guard_retvals(reg, "pthread_getspecific(key)", False)
+    if not gs:
+        gs = [g for g in rules.bailouts(reg) if has(rules.resolve_atoms(reg, g.cont_atoms), "pthread_getspecific(key)", False)]
     ck.ob("C07.1-ONE-PER-THREAD", reg.site("EEXIST"), bool(gs) and all(g.retval == -17 and not g.effects_in_bail for g in gs),
           "second registration returns %s" % ([g.retval for g in gs] or "nothing"),
           witness=[("drop_branch", reg.unit, reg.name, g.block) for g in gs])
